@@ -3,7 +3,7 @@ import json
 from vlib import Violation, ToolError, log
 from c02 import universes
 
-RULE = ("events = minimal_image/is_minimal, automorphisms, and morphism(src,dst,x) for EVERY base image x; symbols: "
+RULE = ("events = minimal_image/is_minimal, automorphisms, morphism(src,dst,x) for EVERY base image x, and fold(p0,d,e) from the trivial and from a folded partition; symbols: "
         "TLC-enumerated universes, generator outputs, 3-D sets with branching, covers (2-3 sheets) with their "
         "bases; non-trivial = distinct symbol that is not minimal or has a non-trivial automorphism")
 
@@ -11,6 +11,9 @@ RULE = ("events = minimal_image/is_minimal, automorphisms, and morphism(src,dst,
 def run(ctx):
     ctx.build()
     ctx.assume("a morphism out of a connected symbol is determined by the image of chamber 1")
+    # the fold / minimal-image machine: least congruence, failure criterion, loop = coarsest congruence (spec only)
+    for c in (["3d2", "4d2", "2d3"] if ctx.quick else ["3d2", "4d2", "2d3", "3d3", "5d2", "6d2"]):
+        ctx.mc("MC_Fold", cfg=f"MC_Fold_{c}", workers=12, universe=f"Fold.tla theorems on every connected symbol and base pair of MC_Fold_{c}.cfg")
     paths = universes(ctx, ["c1d2", "k3d2", "k2d3"] if ctx.quick else ["c1d2", "k3d2", "k2d3", "k4d2", "k3d3"])
     ev = ctx.work / "events.ndjson"
     ctx.dsv("C04", "drive", "--out", ev, "--universe", ",".join(paths), "--maxgen", 5 if ctx.quick else 6, timeout=3600)
